@@ -3,7 +3,7 @@
    The model (PgpCodecModel.v) is the reference written from RFC 4880; harness/c19.cc compares the real
    CallasDonnerhackeFinneyShawThayerRFC4880 functions with it octet for octet. *)
 From Coq Require Import ZArith NArith List Lia.
-From LT Require Import gen_Consts gen_Tables PgpCodecModel PgpCodecLemmas PgpArmorLemmas.
+From LT Require Import gen_Consts gen_Tables PgpCodecModel PgpCodecLemmas PgpArmorLemmas PgpSigModel PgpPacketModel PgpPacketLemmas.
 Import ListNotations.
 Local Open Scope N_scope.
 
@@ -130,7 +130,86 @@ Theorem C19_armor_rejects_nested : forall ty d1 d2, octets d1 -> octets d2 ->
 Proof. exact armor_rejects_nested. Qed.
 Print Assumptions C19_armor_rejects_nested.
 
+(* packet level: PacketDecode (header and body decoders as implemented) applied to the RFC field encoders.
+   One theorem for every packet type; wf_fields lists the side conditions per type (lengths of fixed fields, MPIs
+   with a 16-bit bit count, non-zero where the decoder insists, non-empty data where it insists) *)
+Theorem C19_packet_roundtrip : forall f rest, wf_fields f -> packet_decode (packet_of f ++ rest) = PdOk f.
+Proof. exact packet_roundtrip. Qed.
+Print Assumptions C19_packet_roundtrip.
+
+Theorem C19_packet_roundtrip_key : forall tag nf v tm a km, (tag = 6 \/ tag = 14) -> (v = 4 \/ v = 5) -> tm < 4294967296 ->
+  km_matches a km = true -> km_wf km ->
+  decode_body tag nf (fields_body (PfKey tag v tm a km)) = PdOk (PfKey tag v tm a km).
+Proof. exact roundtrip_key. Qed.
+Print Assumptions C19_packet_roundtrip_key.
+
+Theorem C19_packet_roundtrip_uid : forall nf u, decode_body 13 nf u = PdOk (PfUid u).
+Proof. exact roundtrip_uid. Qed.
+Print Assumptions C19_packet_roundtrip_uid.
+
+Theorem C19_packet_roundtrip_signature : forall nf v ty pk h hashed unhashed left ms, (v = 4 \/ v = 5) ->
+  len hashed < 65536 -> len unhashed < 65536 -> area_ok hashed = true -> area_ok unhashed = true ->
+  length left = 2%nat -> sig_mpi_count pk = Some (length ms) -> Forall mpi_ok ms -> Forall (fun m => m <> 0) ms ->
+  decode_body 2 nf (sig4_body v ty pk h hashed unhashed left ms) = PdOk (PfSig4 v ty pk h hashed unhashed left ms).
+Proof. exact roundtrip_sig4. Qed.
+Print Assumptions C19_packet_roundtrip_signature.
+
+Theorem C19_packet_roundtrip_signature_v3 : forall nf ty tm issuer pk h left ms, tm < 4294967296 -> length issuer = 8%nat ->
+  length left = 2%nat -> sig_mpi_count pk = Some (length ms) -> Forall mpi_ok ms -> Forall (fun m => m <> 0) ms ->
+  decode_body 2 nf (sig3_body ty tm issuer pk h left ms) = PdOk (PfSig3 ty tm issuer pk h left ms).
+Proof. exact roundtrip_sig3. Qed.
+Print Assumptions C19_packet_roundtrip_signature_v3.
+
+Theorem C19_subpacket_roundtrip : forall t crit d rest, t < 128 -> len d + 1 < 4294967296 ->
+  subpkt_split (subpacket t crit d ++ rest) = Some (t, d, rest).
+Proof. exact subpacket_roundtrip. Qed.
+Print Assumptions C19_subpacket_roundtrip.
+
+Theorem C19_packet_roundtrip_literal : forall nf fm fn tm d, tm < 4294967296 -> d <> [] ->
+  decode_body 11 nf (lit_body fm fn tm d) = PdOk (PfLit fm fn tm d).
+Proof. exact roundtrip_lit. Qed.
+Print Assumptions C19_packet_roundtrip_literal.
+
+(* the full statement (all data) is false: the literal packet of an empty document is refused (known finding) *)
+Theorem C19_packet_roundtrip_literal_empty_refuted : forall nf fm fn tm, decode_body 11 nf (lit_body fm fn tm []) = PdError.
+Proof. exact roundtrip_lit_empty_refuted. Qed.
+Print Assumptions C19_packet_roundtrip_literal_empty_refuted.
+
+Theorem C19_packet_roundtrip_compressed : forall nf a d, d <> [] -> decode_body 8 nf (comp_body a d) = PdOk (PfComp a d).
+Proof. exact roundtrip_comp. Qed.
+Print Assumptions C19_packet_roundtrip_compressed.
+
+Theorem C19_packet_roundtrip_skesk : forall nf sk s e, s2k_ok s -> decode_body 3 nf (skesk4_body sk s e) = PdOk (PfSkesk4 sk s e).
+Proof. exact roundtrip_skesk4. Qed.
+Print Assumptions C19_packet_roundtrip_skesk.
+
+Theorem C19_packet_roundtrip_skesk_v5 : forall nf sk ae s iv e, s2k_ok s -> length iv = aead_ivlen_n ae -> e <> [] ->
+  decode_body 3 nf (skesk5_body sk ae s iv e) = PdOk (PfSkesk5 sk ae s iv e).
+Proof. exact roundtrip_skesk5. Qed.
+Print Assumptions C19_packet_roundtrip_skesk_v5.
+
+Theorem C19_packet_roundtrip_pkesk : forall nf keyid a e, length keyid = 8%nat -> esk_matches a e = true -> esk_wf e ->
+  decode_body 1 nf (pkesk_body keyid a e) = PdOk (PfPkesk keyid a e).
+Proof. exact roundtrip_pkesk. Qed.
+Print Assumptions C19_packet_roundtrip_pkesk.
+
+Theorem C19_packet_roundtrip_seipd : forall nf d, d <> [] -> decode_body 18 nf (seipd_body d) = PdOk (PfSeipd d).
+Proof. exact roundtrip_seipd. Qed.
+Print Assumptions C19_packet_roundtrip_seipd.
+
+Theorem C19_packet_roundtrip_aead : forall nf sk ae cs iv d, length iv = aead_ivlen_n ae -> d <> [] ->
+  decode_body 20 nf (aead_body sk ae cs iv d) = PdOk (PfAead sk ae cs iv d).
+Proof. exact roundtrip_aead. Qed.
+Print Assumptions C19_packet_roundtrip_aead.
+
+Theorem C19_packet_roundtrip_mdc : forall h, length h = 20%nat -> decode_body 19 true h = PdOk (PfMdc h).
+Proof. exact roundtrip_mdc. Qed.
+Print Assumptions C19_packet_roundtrip_mdc.
+
 (* non-vacuity *)
+Example C19_example_packet : wf_fields (PfKey 6 4 1600000000 19 (KmECsig [42; 134; 72; 206; 61; 3; 1; 7] 1234567))
+  /\ packet_of (PfUid [65; 66]) = [205; 2; 65; 66].
+Proof. split; [|reflexivity]. split; [vm_compute; reflexivity|]. repeat split; try (vm_compute; (reflexivity || lia)); auto. Qed.
 Example C19_example_armor : txt ArmMessage (radix64_encode true [1]) (crc24_encode [1]) = armor_encode (Some ArmMessage) None [] [1]
   /\ armor_decode (armor_encode (Some ArmMessage) None [] [1]) = ArmOk ArmMessage [1].
 Proof. vm_compute. split; reflexivity. Qed.
